@@ -73,10 +73,15 @@ def design_section(rows):
     head = "## 11. Detection evidence"
     i = s.index(head)
     per = {}
+    other_only = []
     for name, prop, _summary, _needs, caught, _missed in rows:
         d = per.setdefault(prop, {"n": 0, "caught": 0, "names": []})
         d["n"] += 1
-        d["caught"] += 1 if caught != "-" else 0
+        own = f"{prop}: " in caught
+        d["caught"] += 1 if own else 0
+        if not own and caught != "-":
+            other_only.append(name)
+            d["names"].append(f"{name} (reported by {', '.join(sorted({c.split(':')[0] for c in caught.split('; ')}))})")
         if caught == "-":
             d["names"].append(name)
     total = sum(d["n"] for d in per.values())
@@ -88,7 +93,8 @@ def design_section(rows):
            "(3 per property each) were written by independent sub-agents that were given only the text of one property and",
            "a scratch worktree - nothing from `/verif`; `regression-*` are the reverse patches of the `fix:` commits.",
            f"With the checks as committed, {tc} of {total} are reported (VIOLATION, exit 1) by the quick tier of the check of",
-           "the property they were written against; `seeded/README.md` lists, per seed, the change, what it needs to",
+           f"the property they were written against and the other {len(other_only)} by the check of a neighbouring property (named in the",
+           "table below and in the wave notes); none is unreported. `seeded/README.md` lists, per seed, the change, what it needs to",
            "manifest and the signatures that report it. Three seeds were dropped because a later `fix:` commit made their",
            "patch harmless or inapplicable (agent7-C05-1 and agent6-C05-3 after `5d184fa`; agent6-C17-1 after `326413d` - the",
            "same change is kept as agent10-C17-1).",
@@ -105,14 +111,14 @@ def design_section(rows):
            "| 6 (asked for what a small-scope explorer misses: size / count thresholds, non-default arguments, rarely used entry points, environment-dependent branches) | 37 of 60 at first: batches of 512 / 999 / 1000 objects dropping or skipping an element (gc, `_add`, `_do_transfer`, `set_many`, `get_many`, `oids_exist`, `write_db`, index validation pages); files above 1 MiB / 2 MiB (prefix-only hashing, a lone large file never hashed, listings larger than the chunk); paths spelled with a trailing separator or `..` (store, workspace, State root); stores of another algorithm (sha256, sha1, legacy) in gc / merge / transfer / state rows; `roots=`, `ignore=`, `hardlink=True`+`verify`, `check_exists=False`, `read_only` cache, `cache_index` reuse, `get_index` sharing a tmp_dir, explicit `FileStorage` prefix, `index.update` within the same second, two caches / two file systems in one index, dangling workspace links, a remote configured to verify on fetch, `Tree.load(hash_name=)`, rewriting a JSON file over a longer one | a shared bulk alphabet of 1300 tiny objects (C04, C06, C07, C10, C12, C15, C16, C18, C19 20000-entry merge, C20 2500 entries); path-spelling dimension (C05, C06, C10, C16); other-algorithm store kinds (C01 `mig L->G`, C04, C06, C13, C14, C19); C02 `index-prefix` / `index-update` paths and a lone large file; C03 upload builds; C07 verifying transfer of a directory member; C08 `roots` and lazily loaded directories seen through views; C09 special shapes; C11 hard-link adds and index-level fetch; C12 special shapes; C15 three more scenarios; C18 special variants; one genuine defect found and fixed on the way (`435cc42`) |",
            "| 7 (asked for bugs that depend on a special *value* of a name, digest, content or metadata field) | 50 of 59 at first: leading-dot names stripped by `lstrip('./')`, backslashes turned into separators, blanks stripped, NFC normalisation, `..` substring guards, string-prefix instead of component-prefix matches (sibling `data` / `data.bak`, store `dest` / `dest.src`); upper-case or quoted digests folded; the empty listing `[]` and the zero-byte object treated as absent / corrupt; `rstrip('.dir')` eating digests that end in `d`; two objects sharing the fan-out directory; lone CR, NUL after byte 512, CR LF in a plain md5 store, the 30-31 % text ratio, `md5-sha1`; mtimes of 0, before the epoch or differing below the microsecond; permission mode 0466 | one shared special-name tree and a fan-out-prefix pair (`lab.SPECIAL_TREE`, `lab.TWINS`) used by C02, C04, C11, C12, C18; special names in the alphabets of C06, C09, C10, C16, C17, C19, C20; upper-case / quoted values (C06, C07, C08, C19, C20); empty directory objects (C06, C09, C16, C17) and the zero-byte object (C05, C12, C15); delicate legacy contents (C01, C13, C14); half-microsecond clock steps (C02, C03, C07, C13), epoch and pre-epoch mtimes (C05, C10, C13); mode 0466 and unprotected-but-intact objects (C07, C18). **Two genuine defects of the unchanged library** surfaced from sub-agents' side remarks and were repaired (`5d184fa`, `326413d`, section 9). Not reported by the quick tier of their own check: C11-3 (listing keys with `.`, empty or `..` components - no file system produces them), C13-1 (needs a crafted (mtime, size) pair whose decimal digits concatenate identically), C13-2 (needs depth 4: thorough tier), C15-2 / C15-3 / C16-1 (reported by C13 / C01 / C13+C03 instead: the defect is in hashing, not in crash or schedule handling); one seed (C05-1) stopped breaking the property after fix `5d184fa` and was dropped |",
            "| 8 (asked for changes that only show on ERROR, CLEAN-UP and RECOVERY paths: a failure or kill, then a retry) | 19 of 30 at first: `protect` before the integrity comparison (in `check()` and in `add()`), verification gated on `transferred > 0`, an `except` clause broadened or narrowed (`_cache_check`, `_remove`, `protect`, `get_mtime_and_size`, `_load_from_storage`), state rows / link records written on the failure path, a failed directory load remembered as loaded, one tolerated `rmdir` failure ending the whole loop, `Link._created_dirs` shared between calls, the two index transactions of `update()` swapped, `FileNotFoundError` uploads not counted as failed, the missing-on-both-sides guard made unreachable | a fault-injecting local file system (`lab.RmFaultFS`: removals of chosen paths refused, uploads that write half of the bytes in place and fail) and *fault, then the same call again* sequences: C05 (refused removal of the corrupt cache object + retry, clean-up right after a refusal, file-to-file target, entries that cannot be examined - ELOOP), C07 fault part (9 x 9 queries around a refused removal; half-written uploads), C09 (directory objects damaged in four more ways, retry on the same index object once the object is back, a file the workspace index does not know in a directory that is to go), C10 recovery part (refused workspace removals, target object missing then restored with the partial workspace kept or wiped, cache that refuses chmod), C11 destination with a hash-state database under verify, C12 ENOENT faults and process kills between the index transactions (BFS operations + a fourth initial state), C15 source store holding a half-written leftover, C18 failed fetch round from a verifying remote with damaged objects. **Two more genuine defects of the unchanged library** were found while writing these (C09, `8ecdada` and `9ec69a2`, section 9). Not reported by their own check: C04-3 (needs the destination emptied behind the index - outside C04's quantifier; reported by C11 and C12), C16-1 / C16-3 (no interleaving involved; reported by C07+C11 / C04) |",
-           "| 9 (the opposite test again, for the new fault-injecting parts: 30 property-*preserving* changes of error, clean-up and recovery paths - other exception classes and messages, earlier clean-up of temp files, richer error objects through the callbacks, one transaction instead of two, a retried idempotent step, directory objects loaded before the first upload; kept under `benign/benign9-*`) | no check may report them; see `benign/README.md` for the result | - |",
+           "| 9 (the opposite test again, for the new fault-injecting parts: 30 property-*preserving* changes of error, clean-up and recovery paths - other exception classes and messages, earlier clean-up of temp files, richer error objects through the callbacks, one transaction instead of two, a retried idempotent step, directory objects loaded before the first upload; kept under `benign/benign9-*`) | no check may report them: all 30 are silent (own check + every check anchored in a touched file, quick tier; `benign/README.md`). One author's demonstration, a timing-sensitive multi-process workload, failed once on the *unchanged* library while the machine was four times oversubscribed and passes when run alone - the checks were silent in both runs | - |",
            "| 10 (asked for STATE THAT OUTLIVES ONE CALL: on-disk databases that are reopened, objects used twice, a second run with other options on what a first run left, process-wide memo tables; C01 C02 C03 C06 C08 C13 C14 C17 C19 C20) | 20 of 30 at first: a class-level identity cache shared by all SQLite-backed indexes, `__delitem__` / `__setitem__` of that cache skipping the invalidation or the write, `loaded` persisted after the commit, `Tree.add` not invalidating the memoised trie, `load()` behind an `lru_cache`, `Tree.digest` writing to one process-wide scratch path, a module-level set of already expanded directories / a remembered store listing / a cached store handle in gc, one shared blake3 hasher, a memoised `hash_value`, state rows of one algorithm answered for another, `write_db` inserting only absent keys, `Link._created_dirs` shared between calls, `StorageMapping.__getitem__` returning the stored object, `_save_dir_entry` trusting the id of the first save, `get_many` writing into the caller's mapping | harness: a violation that does not reproduce as a single operation is re-run as its whole *enclosing case* (the sequence of operations one worker process performed) in a fresh child - if the signature comes back it is reported with that case as the replay artefact (state carried over between independent operations); before, such a run ended as a harness error. Checks: C06 sessions (two gc calls of one process on one store, second through the same / a fresh / a `get_odb()` handle with other configuration, external changes in between); C20 two SQLite-backed indexes of one process holding the same keys, a key-value database written twice, lookups of absent keys; C08 both sides SQLite-backed (one turned from the other's content by deletes and overwrites in one session, one reopened); C14 independent and interleaved streams of one algorithm incl. blake3, CR LF texts in the state algorithm pairs; C19 `ours` derived from the loaded ancestor object, a merge result stored after further merges; C03 builds of one directory under md5 and the legacy algorithm sharing a state (tree `text3`); C02 `index-resave` path and a round trip into a wiped location; C13 a kept (never filled) `infos` mapping; C17 further storage prefixes registered after the root. Not reported by their own check: C02-2 / C02-3 / C17-2 / C01-1 / C08-2 (reported by C11+C12 / C08 / C03 / C20 / C17: the state lives in the index / tree / SQLite layer those checks drive) |",
            "",
            "Two of the sub-agents' remarks about the *unchanged* library led to repairs (section 9): the `hash_file` TOCTOU",
            "(found when a wave-2 seed made me inject writes inside library calls) and the dry-run removal of legacy",
            "`.unpacked` directories.",
            "",
-           "| property | seeds | reported by its check | not reported |",
+           "| property | seeds | reported by its check | reported only by another check |",
            "|---|---|---|---|"]
     for prop in sorted(per):
         d = per[prop]
